@@ -252,7 +252,8 @@ def main(argv):
         ok, out, errs, dt = lake_build(spec["lean_modules"])
         log(f"lake build {' '.join(spec['lean_modules'])}: {'ok' if ok else 'FAILED'} ({dt:.1f}s)")
         if not ok:
-            names = sorted(set(re.findall(r"([\w/]+\.lean):(\d+):\d+: error", out)))
+            # Lean prints `file:line:col: error: …`, lake (4.33) `error: file:line:col: …`
+            names = sorted(set(re.findall(r"([\w/]+\.lean):(\d+):\d+: error", out) + re.findall(r"error: ([\w/]+\.lean):(\d+):\d+:", out)))
             thm_names = sorted(set(filter(None, (theorem_at(a, int(b)) for a, b in names))))
             label = ", ".join(thm_names) or ", ".join(f"{a}:{b}" for a, b in names) or "lake build"
             broken.append(("proof", label, "\n".join(out.splitlines()[-60:])))
